@@ -6,7 +6,7 @@ of /verif against it (VERIF_REPO). Every check must exit 0 with no VIOLATION lin
 import json, os, re, shutil, subprocess, sys, time
 ENV = dict(os.environ, GOFLAGS="-mod=mod", GOPROXY="off", GOSUMDB="off", GOTOOLCHAIN="local")
 def sh(cmd, cwd=None, env=ENV, timeout=7200):
-    p = subprocess.run(cmd, shell=True, cwd=cwd, env=env, capture_output=True, text=True, timeout=timeout)
+    p = subprocess.run(cmd, shell=True, cwd=cwd, env=env, capture_output=True, text=True, errors="replace", timeout=timeout)
     return p.returncode, p.stdout + p.stderr
 src, name = sys.argv[1], sys.argv[2]
 checks = sys.argv[3:]
